@@ -11,6 +11,9 @@ common-tangent equilibrium with shifted precipitate energy vs. nucleation drivin
   c12.methods_value     tangent / approximate / sampling agree within 2 J/mol (stoichiometric precipitate;
                         the curvature method is compared in sign only, as the statement says "away from the solvus")
 Precipitation states (binary, ternary, two-phase; isothermal runs so that the binary table is exact):
+  c12.table_value       binary models, isothermal: the interfacial composition tabulated for a size class equals the backend's
+                        answer (independent object) for the Gibbs-Thomson energy of THAT phase at that radius, sampled at the
+                        first stable, the middle and the last boundary every 20 steps and after every grid extension (1e-5)
   c12.growth_sign       in every observed state with DF > 0 and critical radius above the minimum radius, class
                         boundaries with R > R*(1+d) grow and R < R*(1-d) shrink, d = 1e-2 (+ 2/DF_molar for the
                         binary offset)
@@ -32,7 +35,7 @@ RULE = ('temperature x Gibbs-Thomson-energy grids and composition grids on Al-Zr
         'with boundaries on both sides of the critical radius observed); temperature arrays in five orders for the array form; random composition / '
         'temperature points of Al-Mg-Si and Ni-Al-Cr for the agreement of the four methods (per-point new tangent object) and long query '
         'histories of one object (non-trivial = enough points away from the solvus); distinct by case description hash')
-REQUIRED_MONITORS = ['c12.df_at_interface', 'c12.solvus_sign', 'c12.df_monotone_x', 'c12.xalpha_monotone_g', 'c12.sentinel_closed',
+REQUIRED_MONITORS = ['c12.table_value', 'c12.df_at_interface', 'c12.solvus_sign', 'c12.df_monotone_x', 'c12.xalpha_monotone_g', 'c12.sentinel_closed',
                      'c12.methods_sign', 'c12.methods_value', 'c12.growth_sign']
 REACH = ['thermo/BinTherm.py:BinaryThermodynamics._interfacialCompositionFromEq', 'thermo/Thermodynamics.py:GeneralThermodynamics._getDrivingForceTangent',
          'thermo/Thermodynamics.py:GeneralThermodynamics._getDrivingForceSampling', 'thermo/Thermodynamics.py:GeneralThermodynamics._getDrivingForceApprox',
@@ -79,6 +82,9 @@ def plan(tier, seed):
         system = ['alzr', 'nialcr', 'almgsi', 'cuti', 'alzr', 'cuti', 'nialcr'][i % 7]
         cfg = precip_gen.gen_config(r, system=system, tier=tier, allow_noniso=False, grid_class='in_range', allow_elastic=True)
         cfg['max_steps'] = min(cfg['max_steps'], 1200 if tier == 'quick' else 3000)
+        if system in ('cuti', 'alzr') and i % 2 == 1:
+            # small grid: size classes are appended during the run (the binary tables of appended classes are computed separately)
+            cfg['pbm'].update({'cMax': 2e-9, 'bins': 30, 'minBins': 24, 'maxBins': 48, 'adaptive': True})
         case = {'kind': 'trajectory', 'cfg': cfg, 'weight': precip_gen.cfg_weight(cfg)}
         if i % 2 == 1:
             case['rerun'] = float(r.choice([1.1, 1.25, 1.5]))
